@@ -197,8 +197,8 @@ fn find_fn<'a>(f: &'a File, name: &str) -> Option<&'a ItemFn> {
 
 
 // ---------------------------------------------------------------------------------------------------------
-// Special extractor: every access to the static EXIT_CODE in src/cli/main.rs, grouped by the closure (or function
-// body) it is written in, in source order.  Accesses inside closures form the programs that may run on any thread,
+// Special extractor: every access to the static EXIT_CODE in src/cli/main.rs, grouped by the innermost closure or
+// match arm (or function body) it is written in, in source order.  Accesses inside closures form the programs that may run on any thread,
 // any number of times; accesses directly in a function body are run by the main thread.
 // A conditional access is translated as an unconditional one (conservative: more behaviours, never fewer).
 struct ExitOps {
@@ -224,6 +224,13 @@ impl<'ast> syn::visit::Visit<'ast> for ExitOps {
         self.next_id += 1;
         self.stack.push(self.next_id);
         syn::visit::visit_expr_closure(self, c);
+        self.stack.pop();
+    }
+    fn visit_arm(&mut self, a: &'ast Arm) {
+        // the arms of a match are alternatives, not a sequence: each is its own program
+        self.next_id += 1;
+        self.stack.push(self.next_id);
+        syn::visit::visit_arm(self, a);
         self.stack.pop();
     }
     fn visit_expr_method_call(&mut self, m: &'ast ExprMethodCall) {
@@ -271,7 +278,7 @@ fn exit_ops(repo: &str) -> R<String> {
         }
     }
     let mut out = String::from("(* GENERATED by rs2v from src/cli/main.rs :: every access to EXIT_CODE -- do not edit; regenerated on every run *)\nFrom Coq Require Import List.\nImport ListNotations.\nFrom SV Require Import Sched.\n");
-    let show = |ps: Vec<&(String, usize, Vec<String>)>| ps.iter().map(|p| format!("[{}] (* fn {}{} *)", p.2.join("; "), p.0, if p.1 > 0 { format!(", closure #{}", p.1) } else { String::new() })).collect::<Vec<_>>().join(";\n  ");
+    let show = |ps: Vec<&(String, usize, Vec<String>)>| ps.iter().map(|p| format!("[{}] (* fn {}{} *)", p.2.join("; "), p.0, if p.1 > 0 { format!(", closure/arm #{}", p.1) } else { String::new() })).collect::<Vec<_>>().join(";\n  ");
     out += &format!("Definition exit_programs : list (list instr) :=\n  [{}].\n", show(programs.iter().filter(|p| p.1 > 0).collect()));
     out += &format!("Definition exit_main : list (list instr) :=\n  [{}].\n", show(programs.iter().filter(|p| p.1 == 0).collect()));
     Ok(out)
